@@ -134,6 +134,8 @@ def check(pid, tier, seed, V, facts, names_path):
         judge(pid, b, o, mutated, V)
     if pid == "C10" :
         minor_sweep(V, beh, streams, tag, quick)
+    if pid == "C11":
+        file_prefixes(V, tag, quick)
     V.cov["traces_validated_against_impl"] += len(cases)
     V.sample({"behaviour": {k: beh[0][k] for k in ("key", "v", "mut")},
               "predicted": {"full": beh[0]["full"]["st"], "eps": beh[0]["eps"]["st"]}})
@@ -149,7 +151,9 @@ RULES = {
            "(type, value) of the universe, both modes; plus all 65536 minor versions on the real code (thorough) / a class "
            "sample (quick); distinct = (type, value, mutation)",
     "C11": "every cut point k in [0, len) of every stream of the universe, ε-copy at base 0 and at the base that ends the "
-           "prefix on a PROT_NONE guard page; distinct = (type, value, k, base)",
+           "prefix on a PROT_NONE guard page; every strict prefix of stored files through load_full and mmap (outcome, and the "
+           "system calls validated against Trace_Loader.tla: the mapping is exactly the prefix); distinct = (type, value, k, base) "
+           "/ (loader, file, k)",
     "C12": "every base-address residue 0..127 for every (type, value) of the universe; distinct = (type, value, residue)",
     "C15": "every tag site (option / bound / control-flow byte tags, derived-enum word tags) of every (type, value) of the "
            "universe overwritten with foreign values; distinct = (type, value, site, tag value)",
@@ -220,6 +224,41 @@ def judge(pid, b, o, mutated, V):
                 want = expect_detail(b, side, mutated)
                 if got["detail"] != want:
                     viol(f"{key}: {side}: {pst} carries {got['detail']}, the offending value is {want}", "payload")
+
+
+def file_prefixes(V, tag, quick):
+    """C11 on real files: every strict prefix of a stored file, loaded fully (must be a read error) and memory-mapped
+    (must fail, and the mapping must be exactly the prefix: validated on the system calls against Trace_Loader.tla)."""
+    from . import loadertrace
+    tys = [("vec64", 3), ("vec8", 5), ("string", 4), ("doc", 2)] if quick else \
+          [("vec64", 3), ("vec64", 8), ("vec8", 5), ("vec8", 33), ("string", 4), ("doc", 2), ("doc", 5), ("canary", 3)]
+    probe = [{"loader": "load_full", "flags": 0, "cause": "valid", "ty": ty, "n": n, "ops": [], "prior": "absent"} for ty, n in tys]
+    lens = [o["file_len"] for o in replay(probe, tag + "_flen", sub="memcase")]
+    cases = []
+    for (ty, n), ln in zip(tys, lens):
+        for k in range(ln):
+            for loader in ("load_full", "mmap"):
+                cases.append({"loader": loader, "flags": 0, "cause": "trunc", "ty": ty, "n": n, "ops": [], "prior": "absent", "cut": k})
+    obs = replay(cases, tag + "_files", sub="memcase")
+    for c, o in zip(cases, obs):
+        name = f"{c['loader']} of the {c['cut']}-byte prefix of a stored {c['ty']} (n={c['n']})"
+        V.count(("file", c["loader"], c["ty"], c["n"], c["cut"]), True)
+        rep = {"case": c, "observed": o}
+        if o is None or "error" in o:
+            V.notes.append(f"not run: {c}")
+            continue
+        if "abort" in o:
+            V.violate(f"C11:file-abort:{c['loader']}:{c['ty']}", f"{name}: the process died ({o.get('stderr', '')[-160:]})", rep)
+            continue
+        if o["file_len"] != c["cut"]:
+            V.notes.append(f"harness: prefix of {c['cut']} bytes was not produced ({o['file_len']})")
+            continue
+        if o["res"] == "ok":
+            V.violate(f"C11:file-value:{c['loader']}:{c['ty']}", f"{name} returned a value", rep)
+        elif c["loader"] == "load_full" and o["res"] != "ReadError":
+            V.violate(f"C11:file-error:{c['loader']}:{c['ty']}", f"{name} returned {o['res']} {o.get('msg') or ''}, not a read error", rep)
+    V.cov["file_prefix_cases"] = len(cases)
+    loadertrace.validate("C11", cases, tag + "_systrace", V)
 
 
 def minor_sweep(V, beh, streams, tag, quick):
